@@ -587,10 +587,32 @@ def c10_part(ctx):
             continue                      # panics are C08 / C11 material
         fields = sorted(k for k in set(dx) | set(dy) if dx.get(k) != dy.get(k))
         key = "C10:dhcp:" + ",".join(fields)
-        if (beh, key) in reported:
+        if (beh, key) in reported or any(b0 == beh for b0, _ in reported):
             continue
         reported.add((beh, key))
         shape, mode, h = hs_all[beh]
+        # (lead) attribute the difference to the buffer mode before reporting: the handler has behaviour that depends
+        # on Go map iteration order (C11:KF_StaleLeaseShadows), so two runs of the SAME mode may differ.  A difference
+        # counts only if three fresh runs agree with each other, three shared runs agree with each other, and the two
+        # groups differ; anything else is recorded as a nondeterministic history and is not a verdict.
+        one = [{"a": "reset", "cfg": shape, "mode": mode, "id": 0, "storm": 0}] + h
+        sp1 = os.path.join(ctx.scratch, "c10dhcp.one.script")
+        vlib.write_ndjson(sp1, one)
+        groups = {}
+        for tag, extra in (("fresh", []), ("shared", ["-shared"])):
+            runs = []
+            for rep in range(3):
+                tp1 = os.path.join(ctx.scratch, "c10dhcp.one.%s.%d.trace" % (tag, rep))
+                dd1 = os.path.join(ctx.scratch, "c10dhcp.one.%s.%d.d" % (tag, rep))
+                os.makedirs(dd1, exist_ok=True)
+                vlib.run_driver(ctx, binary, ["-script", sp1, "-out", tp1, "-dir", dd1, "-txlog"] + extra, timeout=300)
+                runs.append(open(tp1).read())
+            groups[tag] = runs
+        stable = len(set(groups["fresh"])) == 1 and len(set(groups["shared"])) == 1
+        if not stable or groups["fresh"][0] == groups["shared"][0]:
+            ctx.coverage.setdefault("c10_dhcp_nondeterministic_histories", []).append(
+                {"behaviour": beh, "fields": fields, "fresh_variants": len(set(groups["fresh"])), "shared_variants": len(set(groups["shared"]))})
+            continue
         ctx.report(key, "dhcp4_spoofer transcript differs between fresh buffers and one reused receive buffer in %s after step %s" %
                    (fields, json.dumps({k: dx[k] for k in ARGS if k in dx})[:300]),
                    {"kind": "dhcp", "script": [{"a": "reset", "cfg": shape, "mode": mode, "id": 0}] + h, "fields": fields})
